@@ -1012,6 +1012,8 @@ def graph_fingerprint(G):
     try:
         adj = G._succ if G.is_directed() else G._adj
         tl = sorted((repr(u), repr(v), repr(d.get('t', 'NO-TIMELINE'))) for u, nb in adj.items() for v, d in nb.items())
+        if G.is_directed():
+            tl += sorted(('pred', repr(u), repr(v), repr(d.get('t', 'NO-TIMELINE'))) for u, nb in G._pred.items() for v, d in nb.items())
         return (sorted((repr(n), repr(a)) for n, a in G._node.items()), tl,
                 sorted(G.snapshots.items()), sorted(map(repr, G.stream_interactions())), repr(G.graph))
     except Exception as x:
